@@ -14,9 +14,37 @@ from __future__ import annotations
 
 import ast
 
+import os
+
 from .. import deps
 from ..linker import definite_assignment_findings
 from ..model import norm_text
+from ..mutation import MutationAnalysis
+
+CONTROL = os.path.join(os.path.dirname(os.path.dirname(os.path.abspath(__file__))), "controls", "c20_controls.py")
+CONTROL_NAME = "kneeliverse._kverif_control"
+
+# positive controls: function -> (event kind, minimum count)
+CONTROL_EXPECT = {
+    "ctl_write_sort": ("write", 1), "ctl_write_view": ("write", 1), "ctl_write_store": ("write", 1),
+    "ctl_write_via_callee": ("write", 1), "ctl_write_put": ("write", 1), "ctl_copy_is_fine": ("write", 0),
+    "ctl_random": ("nondet", 2), "ctl_time": ("nondet", 1), "ctl_layout": ("layout", 1), "ctl_dtype": ("dtype", 1),
+    "ctl_global_state": ("global-write", 1),
+}
+
+# in/out parameters that are written by design; one line of reason each
+WRITE_EXEMPT = {
+    # C20 speaks of the array and list arguments of *public* functions; these are private loop bodies whose
+    # callers (rdp_fixed / grdp / mp_grdp) pass freshly built local lists
+    ("rdp._rdp_fixed", "stack"): "private worker: in/out work stack owned by the public caller",
+    ("rdp._rdp_fixed", "reduced"): "private worker: in/out result list owned by the public caller",
+    ("rdp._grdp", "stack"): "private worker: in/out work stack owned by the public caller",
+    ("rdp._grdp", "reduced"): "private worker: in/out result list owned by the public caller",
+}
+
+BANNED_MODULE_PREFIXES = ("random", "numpy.random", "time", "uuid", "secrets", "datetime")
+BANNED_BUILTINS = {"id", "hash", "input"}
+BANNED_OS = {"urandom", "getpid", "times"}
 
 FLOOR_FUNCTIONS = 120      # functions analysed (139 today)
 FLOOR_CALLS = 150          # intra-package call sites arity-checked (confirmed by reading: > 200 today)
@@ -31,6 +59,7 @@ def run(ctx):
     res.rule("N-arity", "every call whose callee resolves to a package def (directly, via alias, dispatch table or function-pointer slot) binds to its signature (arity TypeError otherwise)")
     res.rule("N-arity-dep", "calls to dependency callables bind to inspect.signature when available")
     res.rule("N-unbound", "every use of a function local is assigned on every path reaching it (UnboundLocalError is a NameError)")
+    ctx.repo.add_module(CONTROL_NAME, CONTROL)
     lk = ctx.linker
     nfun = 0
     for mod in ctx.repo.package_modules():
@@ -71,7 +100,125 @@ def run(ctx):
                 lk.check_module(cm, c_err, c_ok)
             except deps.DepError as e:
                 res.note(f"client {cm.relpath}: {e}")
+    _run_pdy(ctx)
     res.not_decided += [
         "layout (C/F/view) and dtype (int64/float64) independence of results",
         "determinism of the dependencies themselves",
     ]
+
+
+def _nondet_events(ctx, mod):
+    """Sites in `mod` that resolve into a nondeterminism source."""
+    lk = ctx.linker
+    out = []
+    for node in ast.walk(mod.tree):
+        if isinstance(node, (ast.Attribute, ast.Name)) and isinstance(getattr(node, "ctx", None), ast.Load):
+            parent = mod.parent(node)
+            if isinstance(parent, ast.Attribute) and parent.value is node:
+                continue        # judge the full chain only
+            r = lk.resolve(mod, node)
+            if r.kind != "dep" or r.obj is None:
+                continue
+            obj = r.obj
+            import types
+            if isinstance(obj, types.ModuleType):
+                continue
+            om = getattr(obj, "__module__", None) or ""
+            nm = getattr(obj, "__name__", "") or ""
+            slf = getattr(obj, "__self__", None)
+            if slf is not None and not isinstance(slf, types.ModuleType):
+                om = type(slf).__module__ or om
+            hit = None
+            if any(om == p or om.startswith(p + ".") for p in BANNED_MODULE_PREFIXES):
+                hit = f"{om}.{nm}"
+            elif om == "builtins" and nm in BANNED_BUILTINS and isinstance(parent, ast.Call) and parent.func is node:
+                hit = f"builtins.{nm}"
+            elif om in ("os", "posix", "nt") and nm in BANNED_OS:
+                hit = f"os.{nm}"
+            if hit:
+                out.append((node, hit))
+        elif isinstance(node, ast.For):
+            t = lk.expr_type(mod, _enclosing_func(mod, node), node.iter)
+            if t is set or t is frozenset:
+                out.append((node.iter, "iteration over a set (order depends on hashing)"))
+    return out
+
+
+def _enclosing_func(mod, node):
+    cur = mod.parent(node)
+    while cur is not None and not isinstance(cur, ast.FunctionDef):
+        cur = mod.parent(cur)
+    return cur
+
+
+def _run_pdy(ctx):
+    res = ctx.result
+    res.rule("P-write", "no public function performs a write event (subscript/attribute store, augmented assignment, del, "
+                        "mutating method, out=, np.put-family, writing callee) on a value that may alias one of its array/list parameters")
+    res.rule("D-nondet", "no call/attribute in the package resolves into random, numpy.random, time, uuid, secrets, datetime, os.urandom, id(), hash(); no iteration over a set")
+    res.rule("D-global", "no function mutates a module-level object in place")
+    res.rule("Y-layout", "guard only: no layout-revealing API (.strides .flags .data .ctypes .base .view() .tobytes() np.frombuffer order='K|A|F') applied to an argument-derived array")
+    res.rule("Y-dtype", "guard only: no float-valued store into an array whose dtype is inherited from an argument (*_like / .copy() / np.array(arg))")
+    ma = MutationAnalysis(ctx.repo, ctx.linker)
+    res.analysed["mutation_fixpoint_rounds"] = ma.rounds
+    res.analysed["summaries_writing"] = {q: s.writes for q, s in ma.summaries.items() if s.writes}
+    res.analysed["summaries_returning_param"] = {q: sorted(s.returns) for q, s in ma.summaries.items() if s.returns}
+    control_counts = {}
+    npub = 0
+    for q, fi in sorted(ma.funcs.items()):
+        is_control = fi.module.role == "control"
+        evs = ma.events.get(q, [])
+        if is_control:
+            for e in evs:
+                control_counts[(fi.name, e.kind)] = control_counts.get((fi.name, e.kind), 0) + 1
+            continue
+        if not fi.is_public:
+            continue
+        npub += 1
+        bad = False
+        for e in evs:
+            rule = {"write": "P-write", "layout": "Y-layout", "dtype": "Y-dtype", "global-write": "D-global"}[e.kind]
+            if e.kind == "write" and (q, e.param) in WRITE_EXEMPT:
+                res.ok(rule, f"{q}({e.param})", "exempt: " + WRITE_EXEMPT[(q, e.param)])
+                continue
+            bad = True
+            res.violation(rule, fi.module, fi.name, e.node,
+                          f"public function {q} {('writes its argument' if e.kind == 'write' else 'depends on')} '{e.param}': {e.how}",
+                          norm_text(e.node), "no write / layout-revealing event on a value that may alias a parameter")
+        if not bad:
+            res.ok("P-write", q, f"tracked parameters {ma.tracked_params.get(q, [])}: no write event on any alias")
+    # private functions: global state
+    for q, fi in sorted(ma.funcs.items()):
+        if fi.module.role == "control" or fi.is_public:
+            continue
+        for e in ma.events.get(q, []):
+            if e.kind == "global-write":
+                res.violation("D-global", fi.module, fi.name, e.node, f"{q} mutates module-level object {e.param}: {e.how}")
+    # determinism sources
+    nsites = 0
+    for mod in ctx.repo.modules.values():
+        evs = _nondet_events(ctx, mod)
+        if mod.role == "control":
+            for node, hit in evs:
+                fn = mod.enclosing_function_name(node)
+                control_counts[(fn, "nondet")] = control_counts.get((fn, "nondet"), 0) + 1
+            continue
+        for node, hit in evs:
+            nsites += 1
+            res.violation("D-nondet", mod, mod.enclosing_function_name(node), node,
+                          f"nondeterminism source reachable: {hit}", norm_text(node), "no reference into a nondeterministic API")
+    res.ok("D-nondet", "package", f"{len(ctx.repo.package_modules())} modules scanned, {nsites} banned references")
+    # positive controls
+    for fn, (kind, minimum) in CONTROL_EXPECT.items():
+        got = control_counts.get((fn, kind), 0)
+        if minimum == 0:
+            if got != 0:
+                res.error(f"positive control {fn}: the copy idioms are reported as writes ({got}) - the alias analysis has lost precision")
+            else:
+                res.ok("control", fn, "copying idioms (boolean mask, arithmetic) not reported")
+        elif got < minimum:
+            res.error(f"positive control {fn}: expected >= {minimum} '{kind}' event(s), found {got} - the rule has gone blind")
+        else:
+            res.ok("control", fn, f"{got} '{kind}' event(s) reported as required")
+    res.analysed["public_functions"] = npub
+    res.require_instances("P-write (public functions analysed)", npub, 100)
